@@ -350,3 +350,33 @@ Definition rqcra_ticks (t : term) (p : pst) : Z :=
     if (pt >? pb) || (pl >? pr) || (pr >? tw t) || (pb >? th t) || (pl <? 0) || (pt <? 0) then 0 else (pb - pt) * (pr - pl)
   | _ => 0 end.
 Definition rqcra_c (t : term) (p : pst) : outcome * cost := (rqcra_outcome t p, mkCost 1 (1 + rqcra_ticks t p) 0).
+
+(* ---- extension (c): what the conditional bounds of the hex-macro repeat groups and of the macro replay are conditional ON ------------------------------------------------
+   hex_reps: the largest repeat count of a group that parse_hex_macro_sequence opens in [s] (same state machine as hex_macro_t; [hex_max_rep] above loses the
+   synchronisation at the `;` that closes a group and is kept only for the stage-C output) *)
+Fixpoint hex_reps (s : list Z) (stt : hexst) (rr : bool) (m : Z) : Z :=
+  match s with
+  | [] => m
+  | ch :: r =>
+    match stt with
+    | HFirst => if (ch =? 59) && rr then hex_reps r HFirst false m
+                else if ch =? 33 then hex_reps r (HRepeat 0) rr m
+                else hex_reps r (HSecond ch) rr m
+    | HSecond f => match hex_val f, hex_val (to_upper ch) with
+                   | Some _, Some _ => hex_reps r HFirst rr m
+                   | _, _ => m
+                   end
+    | HRepeat n => if is_digit ch then hex_reps r (HRepeat (parse_next_number n ch)) rr m
+                   else if ch =? 59 then hex_reps r HFirst true (Z.max m n)
+                   else m
+    end
+  end.
+(* 1 + c + c^2 + ... + c^(d-1): macro bodies replayed by one invocation when every body invokes at most c macros and the nesting depth is below d *)
+Fixpoint geom (c : Z) (d : nat) : Z := match d with O => 0 | S k => 1 + c * geom c k end.
+Definition macros_ok (ms : list (Z * list Z)) (B c : Z) : Prop :=
+  forall id body, lookup id ms = Some body -> zlen body <= B /\ zlen (find_invokes body) <= c.
+(* executable versions of B and c for stage C *)
+Definition macros_maxlen (ms : list (Z * list Z)) : Z := fold_right (fun kv a => Z.max (zlen (snd kv)) a) 0 ms.
+Definition macros_maxinv (ms : list (Z * list Z)) : Z := fold_right (fun kv a => Z.max (zlen (find_invokes (snd kv))) a) 0 ms.
+(* the known class of parse_hex_macro_sequence: a repeat count beyond B *)
+Definition KnownC03_hexrep (s : list Z) (B : Z) : Prop := B < hex_reps s HFirst false 0.
